@@ -26,7 +26,16 @@ var = m2/n, skew = sqrt(n) m3 / m2^1.5 and kurtosis = n m4 / m2^2 - 3 are compar
 only their finiteness is demanded.  Constant channels must report var == 0 and skew == 0 exactly.
 Interpretation: ChannelStats(nchans, nsamps) is constructed with nsamps = the number of samples it is going to be fed, so that
 `var` (which divides by nsamps -- C06's subject) is the variance of the samples pushed; streams have at least one sample;
-|x| <= 1e4 and non-constant channels have a spread >= 1e-3, so that fourth-order sums stay inside float32's range."""
+|x| <= 65535 (the 16-bit range; the float classes stay within 1e4) and non-constant channels have a spread >= 1e-3, so that
+fourth-order sums and the float32 power m2**2 of the kurtosis stay inside float32's range for every count < 2^31.
+
+Tighter bound (`tol_case`).  The kernels load the float32 record into float64 locals, update them once per sample in float64 and
+round the record to float32 once per push_data; add_online_moments evaluates in float64 and rounds once.  The number of float32
+roundings of the record is therefore K = pushes + additions, not N: the bound of the at-scale search (`_s_tol`, derivation there)
+holds at every size, and the tolerance used is the smaller of the two, statistic by statistic (equal in order of magnitude for
+one-sample chunks, N/K times smaller for long chunks).  `std` is compared with the square root of the two-pass variance on the
+same box (sqrt is monotone), must be finite, and must be exactly 0 for constant channels.
+Zero-length pushes (push_data of an empty array, before / between / after the chunks) must leave every field unchanged."""
 from __future__ import annotations
 
 import math
@@ -177,6 +186,21 @@ def tolerances(n, nadds, R, D):
     return 2 * E1 + tiny, 2 * E2 + tiny, 2 * E3 + tiny, 2 * E4 + tiny
 
 
+def tol_case(n, npush, nadds, R, D):
+    """the tolerance of one case: statistic by statistic the smaller of `tolerances` (one float32 rounding per sample) and of the
+    bound for K = pushes + additions roundings of the record (`_s_tol`: the kernels accumulate a chunk in float64)"""
+    old = tolerances(n, nadds, R, D)
+    new = _s_tol(n, max(npush + nadds, 1), R, D)
+    return tuple(min(a, float(b)) for a, b in zip(old, new))
+
+
+def std_box(rvar, tv):
+    """reference std and its tolerance from the interval [rvar - tv, rvar + tv] of admissible variances (sqrt is monotone and
+    concave: the lower end is the farther one) plus the float32 roundings of var and of the square root"""
+    rstd = math.sqrt(max(rvar, 0.0))
+    return rstd, rstd - math.sqrt(max(rvar - tv, 0.0)) + 4 * U * rstd + 1e-30
+
+
 def two_pass(x):
     """float64 two-pass statistics of one channel (x: float64 1-d, n >= 1)"""
     n = x.size
@@ -209,7 +233,7 @@ def stat_box(n, M2, M3, M4, t2, t3, t4):
 class Oracle:
     def __init__(self, R):
         self.R = R
-        self.maxratio = {"mean": 0.0, "var": 0.0, "skew": 0.0, "kurtosis": 0.0, "m1": 0.0, "m2": 0.0, "m3": 0.0, "m4": 0.0}
+        self.maxratio = {"mean": 0.0, "var": 0.0, "std": 0.0, "skew": 0.0, "kurtosis": 0.0, "m1": 0.0, "m2": 0.0, "m3": 0.0, "m4": 0.0}
         self.illcond = 0
         self.compared = 0
 
@@ -219,7 +243,7 @@ class Oracle:
         rng_ = h_range(h)
         n = h_count(h)
         nz, em = h_traits(h)
-        _, nadds = h_ops(h)
+        npush, nadds = h_ops(h)
         full = mode != "basic"
         Xs = X[rng_[0]:rng_[1]].astype(np.float64)
         case = {"mode": mode, "class": cls, "history": h, "stream": X.tolist(), "dtype": str(X.dtype)}
@@ -233,7 +257,8 @@ class Oracle:
                    dict(case, got_min=s.minima.tolist(), got_max=s.maxima.tolist(), expected_min=mn.tolist(), expected_max=mx.tolist()))
         mean, var = np.asarray(s.mean, dtype=np.float64), np.asarray(s.var, dtype=np.float64)
         skew, kurt = np.asarray(s.skew, dtype=np.float64), np.asarray(s.kurtosis, dtype=np.float64)
-        for name, arr in (("mean", mean), ("var", var), ("skew", skew), ("kurtosis", kurt)):
+        std = np.asarray(s.std, dtype=np.float64)
+        for name, arr in (("mean", mean), ("var", var), ("std", std), ("skew", skew), ("kurtosis", kurt)):
             if not np.all(np.isfinite(arr)):
                 R.fail(f"nonfinite-{label}", f"{name} is NaN or infinite for finite input", dict(case, stat=name, got=arr.tolist()))
                 return
@@ -241,14 +266,18 @@ class Oracle:
             x = Xs[:, ch]
             Rmax, D = float(np.abs(x).max()), float(x.max() - x.min())
             mu, M2, M3, M4 = two_pass(x)
-            t1, t2, t3, t4 = tolerances(n, nadds, Rmax, D)
+            t1, t2, t3, t4 = tol_case(n, npush, nadds, Rmax, D)
             rvar, tv, rskew, ts, rkurt, tk = stat_box(n, M2, M3, M4, t2, t3, t4)
+            rstd, tsd = std_box(rvar, tv)
             self.compared += 1
             bad = []
             if D == 0.0:
                 if var[ch] != 0.0 or skew[ch] != 0.0:
                     R.fail(f"constant-{label}", "constant channel reports non-zero variance or skewness",
                            dict(case, channel=ch, var=float(var[ch]), skew=float(skew[ch])))
+                if std[ch] != 0.0:
+                    R.fail(f"std-{label}", "constant channel reports a non-zero standard deviation",
+                           dict(case, channel=ch, std=float(std[ch]), var=float(var[ch])))
                 if abs(mean[ch] - mu) > t1:
                     bad.append(("mean", float(mean[ch]), mu, t1))
             else:
@@ -258,6 +287,10 @@ class Oracle:
                     bad.append(("mean", float(mean[ch]), mu, t1))
                 if abs(var[ch] - rvar) > tv:
                     bad.append(("var", float(var[ch]), rvar, tv))
+                self.maxratio["std"] = max(self.maxratio["std"], abs(std[ch] - rstd) / tsd)
+                if abs(std[ch] - rstd) > tsd:
+                    R.fail(f"std-{label}", "std differs from the square root of the two-pass variance by more than the float32 accumulation bound",
+                           dict(case, channel=ch, got=float(std[ch]), expected=rstd, tolerance=tsd, var=float(var[ch])))
                 if full:
                     if rskew is None:
                         self.illcond += 1
@@ -295,6 +328,11 @@ def make_stream(rng, cls, n, nch):
         return np.array([[rng.randrange(4) for _ in range(nch)] for _ in range(n)], dtype=np.uint8)
     if cls == "8bit":
         return np.array([[rng.randrange(1, 256) for _ in range(nch)] for _ in range(n)], dtype=np.uint8)
+    if cls == "16bit":       # nbits = 16 files: full unsigned range (a separate numba specialisation of the kernels)
+        return np.array([[rng.choice([rng.randrange(0, 65536), rng.randrange(0, 65536), 0, 65535]) for _ in range(nch)] for _ in range(n)],
+                        dtype=np.uint16)
+    if cls == "int8":        # signed integers: the extrema are seeded from an integer of the array's own (signed) type
+        return np.array([[rng.randrange(-128, 128) for _ in range(nch)] for _ in range(n)], dtype=np.int8)
     if cls == "smallint":
         return np.array([[rng.randrange(-9, 10) for _ in range(nch)] for _ in range(n)], dtype=np.float32)
     if cls == "negative":
@@ -307,7 +345,7 @@ def make_stream(rng, cls, n, nch):
     raise ValueError(cls)
 
 
-CLASSES = ["constant", "constant-u8", "1bit", "2bit", "8bit", "smallint", "negative", "wide", "offset"]
+CLASSES = ["constant", "constant-u8", "1bit", "2bit", "8bit", "16bit", "int8", "smallint", "negative", "wide", "offset"]
 
 
 # ---------------------------------------------------------------------------------------------------
@@ -371,6 +409,8 @@ def run(R: vlib.Run):
               "with the start index either the sample index or the block number; (b) every split point 0..n of the stream between two "
               "accumulators that are then added, the second one started at index 0 or at its true sample index, each side chunked; "
               "(c) random longer streams with random compositions and random addition trees; (d) two halves of a 2^21-sample stream added; "
+              "(e) for streams of length <= 4: every composition with one zero-length push inserted before / between / after its chunks, "
+              "and every split with a zero-length push first on the left and last on the right accumulator; "
               "x basic/full x 1..4 channels x data classes " + "/".join(CLASSES) + ".  A case is non-trivial if it pushes >= 2 samples; "
               "distinct = distinct (mode, class, history, stream)")
     R.trusted += ["Coq 8.16.1 kernel; vm_compute only in Examples, in the two refutation witnesses and in the correspondence",
@@ -380,7 +420,12 @@ def run(R: vlib.Run):
                   "guards) written by hand; tied by structural checks of stats.py in the translator and by the correspondence run",
                   "float32/float64 rounding and fastmath are not modelled: bounded by the tolerance of props/c10.py (docstring)"]
     R.assume += ["ChannelStats(nchans, nsamps) is built with nsamps = number of samples it will be fed (divisor of var: C06)",
-                 "streams have >= 1 sample, |x| <= 1e4, non-constant spread >= 1e-3 (fourth-order sums inside float32 range)",
+                 "streams have >= 1 sample; sample values |x| <= 65535 (16-bit range; float classes |x| <= 1e4) and non-constant channels "
+                 "have a spread >= 1e-3: outside this box the float32 sums leave float32's range -- for n*sigma^4 or n^2*sigma^4/16 above "
+                 "3.4e38 (e.g. 1e6 float32 samples of sigma 1e7) m4 or the float32 power m2**2 overflows and kurtosis reads -3 or NaN, and "
+                 "for a spread below ~1e-11 m2**2 underflows to 0 while m2 != 0 and kurtosis is NaN",
+                 "every addition has at least one sample on one of its two sides: ChannelStats(n, 0) + ChannelStats(n, 0) sets mean = 0/0 = NaN, "
+                 "which every later addition keeps (0 * NaN); hist_ok of Props/C10.v carries the same side condition",
                  "count < 2^31 (int32 field)"]
     R.prove("Props/C10.v")
 
@@ -388,22 +433,22 @@ def run(R: vlib.Run):
     orc = Oracle(R)
     corr = []     # (full, coq hist, impl record, tolerances, derived, derived tol)
 
-    def do_case(h, X, mode, cls, label, want_corr):
+    def do_case(h, X, mode, cls, label, want_corr, regime=None):
         n = h_count(h)
         s = run_impl(h, X, mode, ChannelStats)
         key = (mode, cls, repr(h), X.tobytes(), X.shape[1])
-        R.case(key, nontrivial=n >= 2, regime=f"{label}-{mode}",
+        R.case(key, nontrivial=n >= 2, regime=f"{regime or label}-{mode}",
                sample={"mode": mode, "class": cls, "history": repr(h), "stream": X[:6].tolist(), "mean": s.mean.tolist()}
                if (n == 4 and len(R.samples) < 6 and label != "single") else None)
         orc.check(h, X, mode, s, label, cls)
         if want_corr:
             rng_ = h_range(h)
-            _, nadds = h_ops(h)
+            npush, nadds = h_ops(h)
             for ch in range(X.shape[1]):
                 col = X[:, ch].astype(np.float64)
                 x = col[rng_[0]:rng_[1]]
                 Rmax, D = float(np.abs(x).max()), float(x.max() - x.min())
-                t = tolerances(n, nadds, Rmax, D)
+                t = tol_case(n, npush, nadds, Rmax, D)
                 mu, M2, M3, M4 = two_pass(x)
                 _, tv, rskew, ts, rkurt, tk = stat_box(n, M2, M3, M4, t[1], t[2], t[3])
                 iv, ik, isk = float(s.var[ch]), float(s.kurtosis[ch]), float(s.skew[ch])
@@ -437,6 +482,21 @@ def run(R: vlib.Run):
                                 a = chain(0, lp, "sample")
                                 b = chain(k, rp, "sample", first_flag=first)
                                 do_case(("add", a, b), X, mode, cls, "merge", want_corr=(n <= 4 and nch <= 2))
+                # (e) zero-length pushes (push_data of an empty array) change nothing: one inserted at every position of every
+                # composition; a zero-length push first on the left / last on the right side of every split.  The stream has
+                # n >= 1 samples, so an addition never has two empty sides (R.assume: empty + empty is 0/0)
+                if n <= 4:
+                    for conv in ("sample", "block"):
+                        for parts in comps:
+                            for j in range(len(parts) + 1):
+                                do_case(chain(0, parts[:j] + [0] + parts[j:], conv), X, mode, cls, "emptypush",
+                                        want_corr=(conv == "sample" and nch <= 2), regime="single-emptypush")
+                    for k in range(0, n + 1):
+                        for lp in compositions(k):
+                            for rp in compositions(n - k):
+                                a = chain(0, [0] + lp, "sample")
+                                b = chain(k, rp + [0], "sample", first_flag=0)
+                                do_case(("add", a, b), X, mode, cls, "emptypush", want_corr=(n <= 3 and nch <= 2), regime="merge-emptypush")
     # ---- (c) random longer streams, random compositions and addition trees ----------------------
     nrand = 60 if quick else 4000
 
@@ -505,7 +565,7 @@ def run(R: vlib.Run):
             R.fail("merge-count-overflow", "adding two accumulators with more than 2^21 samples in total gives wrong higher moments",
                    {"na": na, "nb": nb, "data": "1-bit, ones at i%4==0 in the first half and i%4!=3 in the second", "got": got, "expected": exp,
                     "tolerance": {"mean": t0, "var": tv, "skew": ts, "kurtosis": tk}})
-    R.extra_cov["oracle_error_over_bound_max"] = {k: round(v, 4) for k, v in orc.maxratio.items() if k in ("mean", "var", "skew", "kurtosis")}
+    R.extra_cov["oracle_error_over_bound_max"] = {k: round(v, 4) for k, v in orc.maxratio.items() if k in ("mean", "var", "std", "skew", "kurtosis")}
     R.extra_cov["oracle_channels_compared"] = orc.compared
     R.extra_cov["oracle_ill_conditioned_skipped"] = orc.illcond
 
@@ -601,12 +661,12 @@ def rec_of_rec(r):
 
 S_U8 = ("steps", "1bit-step", "2bit", "constant", "8bit", "spikes")
 S_F32 = ("steps", "wide", "offset", "constant", "smallint-drift", "negative")
-S_KINDS = {"u8-steps": 0, "f32-steps": 1, "u8-mixed": 2, "f32-mixed": 3}
+S_KINDS = {"u8-steps": 0, "f32-steps": 1, "u8-mixed": 2, "f32-mixed": 3, "u16-steps": 4, "i8-steps": 5}
 
 
 def scale_stream(seed, kind, n, nch):
     """the stream of an at-scale case, shape (n, nch) in C order; deterministic in (seed, kind, n, nch) -- replays call this.
-    'u8-steps' / 'f32-steps': every channel is noise on three plateaus (steps at n//3 and 3n//4), so that the two parts of any
+    'u8-steps' / 'f32-steps' / 'u16-steps' / 'i8-steps': every channel is noise on three plateaus (steps at n//3 and 3n//4), so that the two parts of any
     split differ in mean and every term of the merge matters; uint8 values cover 0..255.  'u8-mixed' / 'f32-mixed': channel c
     is of class S_U8[c % 6] / S_F32[c % 6] (the data classes of the small-scope oracle: |x| <= 1e4, spread >= 1e-3 or constant)."""
     n, nch = int(n), int(nch)
@@ -629,6 +689,16 @@ def scale_stream(seed, kind, n, nch):
 
     if kind == "u8-steps":
         return u8_steps(nch)
+    if kind == "u16-steps":            # 16-bit files: three plateaus, values cover 0..65534
+        Y = g.integers(0, 40000, (n, nch), dtype=np.uint16)
+        Y[a:] += np.uint16(15000)
+        Y[b:] += np.uint16(10535)
+        return Y
+    if kind == "i8-steps":             # signed 8-bit: three plateaus, values cover -128..126
+        Y = g.integers(-128, 28, (n, nch), dtype=np.int8)
+        Y[a:] += np.int8(40)
+        Y[b:] += np.int8(59)
+        return Y
     if kind == "f32-steps":
         return f32_steps(nch)
     if kind == "u8-mixed":
@@ -809,7 +879,8 @@ def _s_compare(R, s, n, full, ref, tols, case, kind, mode, ratios):
                dict(case, channel=c, got=[float(mn[c]), float(mx[c])], expected=[float(ref["min"][c]), float(ref["max"][c])], channels_bad=int(badmm.sum())))
     mean, var = np.asarray(s.mean, dtype=np.float64), np.asarray(s.var, dtype=np.float64)
     skew, kurt = np.asarray(s.skew, dtype=np.float64), np.asarray(s.kurtosis, dtype=np.float64)
-    for name, arr in (("mean", mean), ("var", var), ("skew", skew), ("kurtosis", kurt)):
+    std = np.asarray(s.std, dtype=np.float64)
+    for name, arr in (("mean", mean), ("var", var), ("std", std), ("skew", skew), ("kurtosis", kurt)):
         nf = ~np.isfinite(arr)
         if nf.any():
             c = ch_of(nf)
@@ -823,6 +894,17 @@ def _s_compare(R, s, n, full, ref, tols, case, kind, mode, ratios):
         c = ch_of(badc)
         R.fail("scale-constant", "constant channel reports non-zero variance or skewness (at scale)",
                dict(case, channel=c, var=float(var[c]), skew=float(skew[c])))
+    # std = sqrt(var): compared with the square root of the two-pass variance on the interval of admissible variances; 0 for constants
+    rstd = np.sqrt(np.maximum(rvar, 0.0))
+    tsd = rstd - np.sqrt(np.maximum(rvar - tv, 0.0)) + 4 * U * rstd + 1e-30
+    bads = (const & (std != 0.0)) | (~const & (np.abs(std - rstd) > tsd))
+    if (~const).any():
+        ratios["std"] = max(ratios.get("std", 0.0), float((np.abs(std - rstd)[~const] / tsd[~const]).max()))
+    if bads.any():
+        c = ch_of(bads)
+        R.fail("scale-std", "std differs from the square root of the two-pass variance by more than the float32 accumulation bound "
+               "(or is non-zero for a constant channel) (at scale)",
+               dict(case, channel=c, got=float(std[c]), expected=float(rstd[c]), tolerance=float(tsd[c]), var=float(var[c]), channels_bad=int(bads.sum())))
     checks = [("mean", np.abs(mean - ref["mu"]), t1, np.ones_like(const)), ("var", np.abs(var - rvar), tv, ~const)]
     if full:
         checks += [("skew", np.abs(skew - rskew), ts, ~const & ~ill), ("kurtosis", np.abs(kurt - rkurt), tk, ~const & ~ill)]
@@ -881,7 +963,7 @@ def _s_fill(moments, recs):
 
 
 def scale(R: vlib.Run):
-    """at-scale search: pushes of 2^16 .. 2^24 elements, streams of up to 2^24 + 70001 samples per channel chunked at 16384 / a
+    """at-scale search (uint8 / float32 data; 16-bit and signed 8-bit streams of 2^16 + 1 and 200000 samples): pushes of 2^16 .. 2^24 elements, streams of up to 2^24 + 70001 samples per channel chunked at 16384 / a
     non-dividing gulp / above 65536, 70000-push and 2000-addition histories, 4096 .. 2^18+1 channels, merges of operands with up
     to 2^31 - 1 samples.  Data are regenerated from (seed, kind, n, nch) by scale_stream; histories are replayed by scale_eval."""
     from sigpyproc.core import kernels
@@ -936,6 +1018,12 @@ def scale(R: vlib.Run):
             plan += [(("split", 1000, 16384, "sample", False, True), both), (("split", 0, 16384, "sample", True, False), both),
                      (("split", n, 16384, "sample", False, False), both), (("blocks", 1000, "tree"), ("full",))]
         do_stream(kind, n, nch, plan)
+    # ---- (2b) 16-bit and signed 8-bit streams (separate numba specialisations of the kernels; 16-bit values up to 65534) ----------
+    for kind, n, nch in (("u16-steps", (1 << 16) + 1, 1), ("u16-steps", 200000, 4), ("i8-steps", 200000, 4)):
+        do_stream(kind, n, nch, [(("chunks", n, "sample", 0), both), (("chunks", 16384, "sample", 0), both), (("chunks", 10007, "block", 0), both),
+                                 (("split", n // 2, 16384, "sample", False, False), both), (("split", n // 4, 70001, "block", True, True), both),
+                                 (("sum-push", n // 3, (2 * n) // 3, 16384), both), (("blocks", 16384, "tree"), both),
+                                 (("blocks", 1000, "fold"), ("full",))])
     # ---- (3) many channels (4096; 65537: a 16-bit channel index wraps; 2^18 + 1) ----------------------------------------------
     for kind, n, nch in (("u8-mixed", 600, 4096), ("f32-mixed", 40, 65537), ("u8-mixed", 20, (1 << 18) + 1)):
         g = max(1, n // 37)
